@@ -16,21 +16,11 @@ def run(rep):
                         'merge_into outcomes are merged (ite) instead of forked: exact, no path dropped',
                         'logaddexp(ln a, ln b) = ln(a+b), ln monotone, exp(ln a - ln b) = a/b (R policy, log-weight normal form)']
     rep.outside += ['histories longer than one transition', 'MCLMC (C18)', 'maxdepth > %d' % DMAX, 'floating-point rounding of weights']
-    total = 0
-    for D in range(0, DMAX + 1):
-        for mind in range(0, D + 1):
-            t0 = time.time()
-            H, outs = explore(mir, L, D, mindepth=mind, faults=True)
-            nv, nob = check_paths(rep, 'C03 maxdepth=%d mindepth=%d' % (D, mind), H, outs, D, mind, True)
-            rep.absorb_vm(H.vm); total += len(outs)
-            if nv == 0: rep.holds('C03 tree: draw in accepted trajectory, bounds, exact termination, momentum refresh once - maxdepth=%d mindepth=%d (%d paths, %d sub-obligations)' % (D, mind, len(outs), nob), time.time() - t0)
-            if D == 2 and mind == 0:
-                for o in outs[:3]: rep.sample({'dirs': o['dirs'], 'leapfrogs': o['leapfrogs'], 'depth': o.get('depth'), 'result': o.get('result'), 'draw': str(o.get('draw_sid'))[:200], 'pc': [str(c) for c in o['pc'][-3:]]})
-            # covers: every stop reason is reachable
-            if D == DMAX and mind == 0:
-                from ..treecheck import path_code
-                kinds = {path_code(o)[1] for o in outs if o['kind'] != 'panic'}
-                for k in ('maxdepth', 'turn_acc', 'turn_rej', 'div', 'err'): rep.cover('C03 stop reason reachable: ' + k, k in kinds)
+    import multiprocessing as mp, os
+    jobs = [(mir.path, D, mind, rep.tier, rep.seed, DMAX) for D in range(0, DMAX + 1) for mind in range(0, D + 1)]
+    jobs.sort(key=lambda j: -j[1])
+    with mp.Pool(min(16, os.cpu_count() or 4)) as pool: results = pool.starmap(_tree_job, jobs)
+    for sub in results: merge_report(rep, sub)
     # dim = 0: returns the start with depth 0 and no leapfrog
     H, outs = explore(mir, L, 2, dim=0)
     ok = len(outs) == 1 and outs[0]['kind'] == 'ret' and outs[0]['result'] == 'Ok' and outs[0]['depth'] == 0 and outs[0]['nleap'] == 0 and not z3.is_expr(outs[0]['draw_sid']) and outs[0]['draw_sid'] == 0
@@ -45,6 +35,37 @@ def run(rep):
     from .pool import pool_scripts
     from ..driver import parts
     parts(rep, [lambda: pool_scripts(rep, mir, L, 5 if rep.tier == 'quick' else 7), lambda: chain_draw(rep, mir, L)])
+
+def merge_report(rep, sub):
+    rep.obligations += sub.obligations; rep.covers += sub.covers; rep.violations += sub.violations; rep.errors += sub.errors
+    rep.functions |= sub.functions; rep.paths += sub.paths; rep.stmts += sub.stmts; rep.feas_queries += sub.feas_queries; rep.solver_s += sub.solver_s
+    for s_ in sub.samples: rep.sample(s_)
+    for n_ in sub.notes:
+        if n_ not in rep.notes: rep.notes.append(n_)
+
+def _tree_job(mirpath, D, mind, tier, seed, DMAX):
+    from ..driver import Report
+    from ..mir import Mir
+    from ..treecheck import path_code
+    rep = Report('C03', tier, seed); mir = Mir(mirpath, REPO); L = Layouts(REPO)
+    try:
+        t0 = time.time()
+        H, outs = explore(mir, L, D, mindepth=mind, faults=True)
+        nv, nob = check_paths(rep, 'C03 maxdepth=%d mindepth=%d' % (D, mind), H, outs, D, mind, True)
+        rep.absorb_vm(H.vm)
+        if nv == 0: rep.holds('C03 tree: draw in accepted trajectory, bounds, exact termination, momentum refresh once - maxdepth=%d mindepth=%d (%d paths, %d sub-obligations)' % (D, mind, len(outs), nob), time.time() - t0)
+        if D == 2 and mind == 0:
+            for o in outs[:3]: rep.sample({'dirs': o['dirs'], 'leapfrogs': o['leapfrogs'], 'depth': o.get('depth'), 'result': o.get('result'), 'draw': str(o.get('draw_sid'))[:200], 'pc': [str(c) for c in o['pc'][-3:]]})
+        if D == DMAX and mind == 0:
+            kinds = {path_code(o)[1] for o in outs if o['kind'] != 'panic'}
+            for k in ('maxdepth', 'turn_acc', 'turn_rej', 'div', 'err'): rep.cover('C03 stop reason reachable: ' + k, k in kinds)
+    except Exception as e:
+        import traceback; traceback.print_exc()
+        rep.errors.append('tree job D=%d mindepth=%d: %s: %s' % (D, mind, type(e).__name__, str(e)[:200]))
+    for v in rep.violations:
+        if v.get('model') is not None: v['model'] = __import__('json').loads(__import__('json').dumps(v['model'], default=str))
+    rep.functions = set(rep.functions)
+    return rep
 
 def target_time(rep, mir, L):
     """target_integration_time = Some(t): the derived depth limits never exceed options.maxdepth (loop-free part of draw)"""
